@@ -60,7 +60,7 @@ type epStat struct {
 type worker struct {
 	r         *runner
 	cur       atomic.Pointer[caseInfo]
-	start     atomic.Int64 // UnixNano when the current case began; 0 = idle
+	start     atomic.Int64 // reading of the runner's fair clock when the current case began; 0 = idle
 	stage     atomic.Pointer[string]
 	abandoned atomic.Bool
 	reported  *caseInfo // touched by the monitor only
@@ -74,6 +74,10 @@ type runner struct {
 	obs      *obsPool // full observer (one instance per worker: no shared counters)
 	lite     *obsPool // shallow observer for the size extremes
 	deadline time.Duration
+	// clock is not the wall clock: on a loaded machine a legitimate case takes several times longer, and a wall-clock
+	// deadline would then report a hang that is not one. It advances, every 200 ms, by min(200 ms, processor time the
+	// process consumed / busy workers), never by less than 10 ms: a case ages at the rate at which it is actually run.
+	clock    atomic.Int64 // nanoseconds
 	mu       sync.Mutex
 	active   map[*worker]struct{}
 	stats    map[string]*epStat
@@ -110,14 +114,32 @@ func newRunner(c *fw.Ctx) *runner {
 func (r *runner) monitor() {
 	t := time.NewTicker(200 * time.Millisecond)
 	defer t.Stop()
+	lastCPU := fw.CPUMillis()
 	for {
 		select {
 		case <-r.stop:
 			return
 		case <-t.C:
 		}
-		now := time.Now().UnixNano()
+		cpu := fw.CPUMillis()
 		r.mu.Lock()
+		busy := int64(0)
+		for w := range r.active {
+			if w.start.Load() != 0 {
+				busy++
+			}
+		}
+		adv := int64(200 * time.Millisecond)
+		if busy > 0 {
+			if a := (cpu - lastCPU) * int64(time.Millisecond) / busy; a < adv {
+				adv = a
+			}
+		}
+		if adv < int64(10*time.Millisecond) {
+			adv = int64(10 * time.Millisecond)
+		}
+		lastCPU = cpu
+		now := r.clock.Add(adv)
 		for w := range r.active {
 			// read order ci, start, ci (begin stores cur before start, end zeroes
 			// start): a start time is only ever attributed to its own case
@@ -139,7 +161,7 @@ func (r *runner) monitor() {
 				who = stageOwner(stage)
 			}
 			r.c.Report(fw.Violation{Fingerprint: who + "|timeout|" + stage, Order: ci.order, Scope: ci.scope, Input: ci.input(),
-				Observed: fmt.Sprintf("no return after %v (stage: %s; entry point %s)", r.deadline, stage, ci.ep),
+				Observed: fmt.Sprintf("no return after %v of processor time (stage: %s; entry point %s)", r.deadline, stage, ci.ep),
 				Expected: "the call returns a value or an error", Explain: "a decoding entry point or a read-only operation on a decoded value did not terminate within the watchdog deadline",
 				GoTest: goTestDecodeOnly(ci)})
 		}
@@ -265,7 +287,7 @@ func (w *worker) stat(ep string) *epStat {
 func (w *worker) begin(ci *caseInfo) {
 	w.cur.Store(ci)
 	w.stage.Store(&stDecode)
-	w.start.Store(time.Now().UnixNano())
+	w.start.Store(w.r.clock.Load() + 1)
 }
 
 func (w *worker) end() {
@@ -335,7 +357,7 @@ func (r *runner) each(n int64, par int, o *obsPool, f func(w *worker, i int64)) 
 		select {
 		case <-fin:
 		case <-tick.C:
-			now := time.Now().UnixNano()
+			now := r.clock.Load()
 			for k, w := range ws {
 				if state[k].Load() != 0 {
 					continue
